@@ -212,7 +212,10 @@ func (e *eccKeyAgreement) generateClientKeyExchange(hs *clientHandshakeState) ([
 		return nil, nil, err
 	}
 
-	pub := encCert.PublicKey.(*ecdsa.PublicKey)
+	pub, ok := encCert.PublicKey.(*ecdsa.PublicKey)
+	if !ok {
+		return nil, nil, errors.New("tlcp: sm2 encryption requires a sm2 public key")
+	}
 	encrypted, err := sm2.Encrypt(config.rand(), pub, preMasterSecret, sm2.ASN1EncrypterOpts)
 	if err != nil {
 		return nil, nil, err
@@ -493,6 +496,13 @@ func (ka *sm2ECDHEKeyAgreement) processServerKeyExchange(hs *clientHandshakeStat
 func (ka *sm2ECDHEKeyAgreement) generateClientKeyExchange(hs *clientHandshakeState) ([]byte, *clientKeyExchangeMsg, error) {
 	if ka.peerTmpKey == nil {
 		return nil, nil, errServerKeyExchange
+	}
+	if len(hs.peerCertificates) < 2 {
+		return nil, nil, errors.New("tlcp: sm2 key exchange need server provide two certificate")
+	}
+	// ECDHE 套件要求双向身份认证：服务端未发送证书请求或客户端没有加密证书时无法协商
+	if hs.encCert == nil {
+		return nil, nil, errors.New("tlcp: ECDHE key exchange needs a client encryption certificate")
 	}
 
 	// 使用客户端加密密钥对进行SM2密钥交换
